@@ -14,7 +14,9 @@ MANIFEST = {
             "and compared with the generated program, the abstract checker is run on the observed list, and the real file-system state after "
             "a real SIGKILL before/after every file-system-mutating system call is compared with the model's runUntilCrash. The property "
             "oracle (content in {original, formatted} after each kill; formatted content and original mode after complete runs, modes "
-            "0644/0600/0755/0640/0444/0664; rerun in a directory with a stale temp file) is evaluated on the real binary.",
+            "0644/0600/0755/0640/0444/0664; rerun in a directory with a stale temp file; paths that are symlinks (same dir, other dir, chain) or "
+            "hard-linked files, read through the path) is evaluated on the real binary. os.Stat and os.Lstat are distinct model operations "
+            "(the state has a symlink node; the theorems quantify over whether the path is a symlink).",
     "note": "trusted: Lean kernel; the FS model (atomic rename, no effect of failed calls, one open descriptor) validated against the real kernel "
             "only at the enumerated crash points; the translator extract/fmtwrite.go; the harness (strace log mapping, ptrace killer). Crash = the "
             "process is killed (SIGKILL); machine crashes / power loss (no fsync in the code) are outside the statement. Partial writes are "
@@ -26,7 +28,8 @@ MANIFEST = {
 RULE = ("files that xgo fmt must rewrite: generated XGo sources (17 B .. >1 MB in thorough), a .go file, a file name with a blank, de-formatted "
         "corpus files of the tree; per file: a traced complete run per mode, then one run per crash point = (file-system-mutating system call of "
         "the run, killed before | after) + before exit (all points of all files in thorough; all points of two files + 'before' points of two "
-        "more + the points around the rename of the rest in quick). Non-trivial = a run in which the kill was placed at the planned call, or a "
+        "more + the points around the rename of the rest + every 'before' point of the 0444 and the 0755 file + the points around the rename "
+        "of one symlink / absolute symlink / symlink chain / hard-linked path each, in quick). Non-trivial = a run in which the kill was placed at the planned call, or a "
         "traced complete run")
 
 
